@@ -499,6 +499,28 @@ Theorem C04_answer_depends_on_own_segment_only : forall reqs i a m seg,
 Proof. exact answer_depends_on_own_segment_only. Qed.
 Print Assumptions C04_answer_depends_on_own_segment_only.
 
+(* a connection serves a further request only after a FINAL response (status > 199: never after a
+   101 that is not a protocol switch, never after a 0xx), no close, clean end, empty buffer *)
+Theorem C04_reuse_real_spec : forall r b,
+  reuse_real r b = true <->
+  r_close r = false /\ (no_reuse_status_bound < r_code r)%Z /\ b_end b = BOk /\ b_rest b = [].
+Proof. exact reuse_real_spec. Qed.
+Print Assumptions C04_reuse_real_spec.
+
+Theorem C04_conn_continues_only_after_final : forall reqs i r b,
+  nth_error (conn_exchanges reuse_real [] reqs) i = Some (Some (r, b)) ->
+  S i < length (conn_exchanges reuse_real [] reqs) ->
+  r_close r = false /\ (199 < r_code r)%Z /\ b_end b = BOk /\ b_rest b = [].
+Proof. exact conn_continues_only_after_final. Qed.
+Print Assumptions C04_conn_continues_only_after_final.
+
+(* readLoop's status bound and both buffer guards, regenerated from transport.go *)
+Theorem C04_readloop_decision_agrees :
+  Gen.H1Tables.fork_no_reuse_status_bound = no_reuse_status_bound /\
+  Gen.H1Tables.fork_buffer_guards = 2%Z.
+Proof. exact readloop_decision_agrees. Qed.
+Print Assumptions C04_readloop_decision_agrees.
+
 (* ... whereas without the buffer test (pinned fork; seeded change c-m1 for bodiless responses)
    the bytes behind a 204 are handed to the next request *)
 Theorem C04_reuse_without_buffer_check_refuted :
